@@ -12,13 +12,13 @@ import (
 
 // PoolCfg is one floatingip pool of the generated configuration.
 type PoolCfg struct {
-	NodeSubnets []string   `json:"nodeSubnets"`
-	IPs         []string   `json:"ips"`
-	Subnet      string     `json:"subnet"`
-	Gateway     string     `json:"gateway"`
-	Vlan        int        `json:"vlan,omitempty"`
-	ranges      [][2]int   // host numbers inside the /24
-	sub         int        // pod subnet index
+	NodeSubnets []string `json:"nodeSubnets"`
+	IPs         []string `json:"ips"`
+	Subnet      string   `json:"subnet"`
+	Gateway     string   `json:"gateway"`
+	Vlan        int      `json:"vlan,omitempty"`
+	ranges      [][2]int // host numbers inside the /24
+	sub         int      // pod subnet index
 }
 
 // Node is a cluster node.
